@@ -40,10 +40,18 @@ def main():
     for d in sorted(glob.glob('/tmp/w3_*/_seeded/m*')):
         pid = d.split('/')[2][3:]
         items.append((f'{pid}-r3{os.path.basename(d)}', os.path.join(d, 'patch.diff')))
+    for d in sorted(glob.glob('/tmp/w4_*/_seeded/m*')):
+        pid = d.split('/')[2][3:]
+        items.append((f'{pid}-r4{os.path.basename(d)}', os.path.join(d, 'patch.diff')))
+    seen = {n for n, _ in items}
+    for d in sorted(glob.glob(os.path.join(HERE, 'seeded', 'C*-*m*'))):
+        n = os.path.basename(d)
+        if n not in seen:
+            items.append((n, os.path.join(d, 'patch.diff')))
     if len(sys.argv) > 1:
         items = [it for it in items if any(a in it[0] for a in sys.argv[1:])]
     seen = {n for n, _ in items}
-    for d in sorted(glob.glob(os.path.join(HERE, 'seeded', 'C*-m*'))):
+    for d in []:
         n = os.path.basename(d)
         if n not in seen:
             items.append((n, os.path.join(d, 'patch.diff')))
